@@ -66,6 +66,8 @@ def array(n, seed, kind, mag):
     """Dense array of a family with Frobenius norm exactly (up to rounding) `mag`."""
     g = gen.rng('C03arr', n, seed, kind)
     d = len(n)
+    if kind == 'zero':                      # exactly zero array (only with absolute accuracies)
+        return np.zeros(n)
     if kind == 'gauss':
         A = g.normal(size=n)
     elif kind == 'int':
@@ -89,7 +91,25 @@ class Case:
     pass
 
 
-def run_svd(n, seed, kind, mag, e, cap, via):
+def _layout(A, layout):
+    """The same array in another memory layout: 'F' Fortran order, 'V' non-contiguous view of a larger buffer,
+    'R' reversed strides (negative steps)."""
+    if layout == 'C':
+        return A
+    if layout == 'F':
+        return np.asfortranarray(A)
+    if layout == 'V':
+        big = np.zeros([2 * k for k in A.shape])
+        sl = tuple(slice(None, None, 2) for _ in A.shape)
+        big[sl] = A
+        return big[sl]
+    if layout == 'R':
+        sl = tuple(slice(None, None, -1) for _ in A.shape)
+        return np.ascontiguousarray(A[sl])[sl]
+    raise ValueError(layout)
+
+
+def run_svd(n, seed, kind, mag, e, cap, via, layout='C'):
     c = Case()
     if via == 'svd_matrix':
         q = len(n)
@@ -103,12 +123,14 @@ def run_svd(n, seed, kind, mag, e, cap, via):
             j = sum(((I[:, k] >> 1) << k) for k in range(q))
             M = np.zeros((2 ** q, 2 ** q))
             M[i, j] = T.reshape(-1)
-        c.inp = M
+        c.inp = _layout(M, layout)
         c.A = _interleave(M, q)
         fn = teneva.svd_matrix
     else:
         c.inp = array(n, seed, kind, mag)
         c.A = c.inp
+        if c.inp is not None:
+            c.inp = _layout(c.inp, layout)
         fn = teneva.svd
     if c.inp is None:
         return None, SKIP('zero array')
@@ -117,6 +139,8 @@ def run_svd(n, seed, kind, mag, e, cap, via):
     c.svs = [np.linalg.svd(c.A.reshape(int(np.prod(n[:k])), -1), compute_uv=False) for k in range(1, c.d)]
     if e[0] == 'rel':
         c.e = e[1] * c.nrm
+        if not c.e > 0:
+            return None, SKIP('relative accuracy of a zero array')
     elif e[0] == 'abs':
         c.e = float(e[1])
     else:
@@ -144,9 +168,9 @@ def run_svd(n, seed, kind, mag, e, cap, via):
 
 
 @clause('C03.svd.shape_ranks', funcs=('svd.svd', 'svd.svd_matrix'))
-def svd_shape_ranks(n, seed, kind, mag, e, cap, via):
+def svd_shape_ranks(n, seed, kind, mag, e, cap, via, layout='C'):
     """Well-formed finite TT of the input's shape; every rank <= max(1, int(r)) and <= the size of its unfolding."""
-    c, res = run_svd(n, seed, kind, mag, e, cap, via)
+    c, res = run_svd(n, seed, kind, mag, e, cap, via, layout)
     if c is None:
         return res
     for k in range(1, c.d):
@@ -159,9 +183,9 @@ def svd_shape_ranks(n, seed, kind, mag, e, cap, via):
 
 
 @clause('C03.svd.error_bound', funcs=('svd.svd', 'svd.svd_matrix', 'svd.matrix_skeleton'))
-def svd_error_bound(n, seed, kind, mag, e, cap, via):
+def svd_error_bound(n, seed, kind, mag, e, cap, via, layout='C'):
     """Cap not binding: ||A - full(svd(A, e))|| <= e sqrt(d-1), whatever the scale of the data."""
-    c, res = run_svd(n, seed, kind, mag, e, cap, via)
+    c, res = run_svd(n, seed, kind, mag, e, cap, via, layout)
     if c is None:
         return res
     if c.capbinds:
@@ -175,9 +199,9 @@ def svd_error_bound(n, seed, kind, mag, e, cap, via):
 
 
 @clause('C03.svd.rank_minimal', funcs=('svd.svd', 'svd.svd_matrix', 'svd.matrix_skeleton'))
-def svd_rank_minimal(n, seed, kind, mag, e, cap, via):
+def svd_rank_minimal(n, seed, kind, mag, e, cap, via, layout='C'):
     """Each rank <= the smallest rank whose tail energy in the corresponding unfolding of the input is <= e."""
-    c, res = run_svd(n, seed, kind, mag, e, cap, via)
+    c, res = run_svd(n, seed, kind, mag, e, cap, via, layout)
     if c is None:
         return res
     if c.e < 1e-9 * c.nrm:
@@ -214,7 +238,7 @@ def svd_exact_lowrank(n, seed, rho, mag, via):
 # ----------------------------------------------------------------------------- svd_matrix / full_matrix
 
 @clause('C03.svd_matrix.roundtrip', funcs=('svd.svd_matrix', 'transformation.full_matrix'))
-def svd_matrix_roundtrip(q, coding, cap):
+def svd_matrix_roundtrip(q, coding, cap, layout='C'):
     """Integer-coded 2^q x 2^q matrix: q cores of mode size 4, TT entry at digits m_k = i_k + 2 j_k is A[i, j];
     full_matrix inverts the interleaving (exact after rounding to integers); ranks <= cap."""
     N = 2 ** q
@@ -225,6 +249,7 @@ def svd_matrix_roundtrip(q, coding, cap):
         A = (i + 1.0) * (j + 2.0)
     else:
         A = gen.rng('sm', q, coding).integers(-50, 51, size=(N, N)).astype(float)
+    A = _layout(A, layout)
     snap = gen.snapshot(A)
     Y = teneva.svd_matrix(A, 1e-10, cap)
     if gen.snapshot(A) != snap:
@@ -270,6 +295,8 @@ def full_matrix_interleave(q, r, seed):
 
 def matrix(m, n, seed, kind, scale):
     g = gen.rng('C03mat', m, n, seed, kind)
+    if kind == 'zero':
+        return np.zeros((m, n))
     if kind == 'gauss':
         A = g.normal(size=(m, n))
     elif kind == 'sym':
@@ -294,12 +321,12 @@ def matrix(m, n, seed, kind, scale):
     return np.ascontiguousarray(A * scale)
 
 
-def run_matrix(fn, m, n, seed, kind, scale, e, cap, rel=False, **kw):
+def run_matrix(fn, m, n, seed, kind, scale, e, cap, rel=False, layout='C', **kw):
     c = Case()
-    c.A = matrix(m, n, seed, kind, scale)
+    c.A = _layout(matrix(m, n, seed, kind, scale), layout)
     c.s = np.linalg.svd(c.A, compute_uv=False)
     c.nrm = float(np.linalg.norm(c.A))
-    if c.nrm == 0 or c.s[0] == 0:
+    if (c.nrm == 0 or c.s[0] == 0) and (kind != 'zero' or rel or e[0] != 'abs'):
         return None, SKIP('zero matrix')
     c.t = tails(c.s / c.s[0]) if rel else tails(c.s)
     c.ref = (c.nrm / c.s[0]) if rel else c.nrm         # size of tail(0) in the units of e
@@ -362,24 +389,24 @@ SK = ('svd.matrix_skeleton',)
 
 
 @clause('C03.matrix_skeleton.rank_selection', funcs=SK)
-def msk_rank(m, n, seed, kind, scale, e, cap, rel, give_to, hermitian):
+def msk_rank(m, n, seed, kind, scale, e, cap, rel, give_to, hermitian, layout='C'):
     """q <= max(1, int(r)); q = smallest size whose discarded tail energy is <= e (relative to s_0 when rel) unless
     the cap binds."""
-    c, res = run_matrix(teneva.matrix_skeleton, m, n, seed, kind, scale, e, cap, rel=rel, hermitian=hermitian, give_to=give_to)
+    c, res = run_matrix(teneva.matrix_skeleton, m, n, seed, kind, scale, e, cap, rel=rel, layout=layout, hermitian=hermitian, give_to=give_to)
     return res if c is None else _rank_selection(c, 1e-12)
 
 
 @clause('C03.matrix_skeleton.best_approx', funcs=SK)
-def msk_best(m, n, seed, kind, scale, e, cap, rel, give_to, hermitian):
+def msk_best(m, n, seed, kind, scale, e, cap, rel, give_to, hermitian, layout='C'):
     """U V is a best rank-q approximation: ||A - U V|| equals the l2 norm of the discarded singular values."""
-    c, res = run_matrix(teneva.matrix_skeleton, m, n, seed, kind, scale, e, cap, rel=rel, hermitian=hermitian, give_to=give_to)
+    c, res = run_matrix(teneva.matrix_skeleton, m, n, seed, kind, scale, e, cap, rel=rel, layout=layout, hermitian=hermitian, give_to=give_to)
     return res if c is None else _best_approx(c, 64 * EPS)
 
 
 @clause('C03.matrix_skeleton.give_to', funcs=SK)
-def msk_give_to(m, n, seed, kind, scale, e, cap, rel, give_to, hermitian):
+def msk_give_to(m, n, seed, kind, scale, e, cap, rel, give_to, hermitian, layout='C'):
     """'l': V has orthonormal rows (weights in U); 'r': U has orthonormal columns; 'm': U^T U = V V^T = diag(s_1..s_q)."""
-    c, res = run_matrix(teneva.matrix_skeleton, m, n, seed, kind, scale, e, cap, rel=rel, hermitian=hermitian, give_to=give_to)
+    c, res = run_matrix(teneva.matrix_skeleton, m, n, seed, kind, scale, e, cap, rel=rel, layout=layout, hermitian=hermitian, give_to=give_to)
     if c is None:
         return res
     I = np.eye(c.q)
@@ -402,27 +429,27 @@ MS_FLOOR = 1e-3      # the Gram-matrix eigen-decomposition resolves tail^2 only 
 
 
 @clause('C03.matrix_svd.rank_selection', funcs=MS)
-def msv_rank(m, n, seed, kind, scale, e, cap):
+def msv_rank(m, n, seed, kind, scale, e, cap, layout='C'):
     """As matrix_skeleton.rank_selection (absolute e); thresholds and ambiguity respect the eps ||A||^2 resolution."""
-    c, res = run_matrix(teneva.matrix_svd, m, n, seed, kind, scale, e, cap, floor=MS_FLOOR)
+    c, res = run_matrix(teneva.matrix_svd, m, n, seed, kind, scale, e, cap, layout=layout, floor=MS_FLOOR)
     return res if c is None else _rank_selection(c, 256 * EPS * len(c.s))
 
 
 @clause('C03.matrix_svd.best_approx', funcs=MS)
-def msv_best(m, n, seed, kind, scale, e, cap):
+def msv_best(m, n, seed, kind, scale, e, cap, layout='C'):
     """U V is a best rank-q approximation up to the sqrt(eps) ||A|| resolution of the eigen-decomposition."""
-    c, res = run_matrix(teneva.matrix_svd, m, n, seed, kind, scale, e, cap, floor=MS_FLOOR)
+    c, res = run_matrix(teneva.matrix_svd, m, n, seed, kind, scale, e, cap, layout=layout, floor=MS_FLOOR)
     return res if c is None else _best_approx(c, 4 * math.sqrt(EPS))
 
 
 @clause('C03.matrix_svd.right_orthonormal', funcs=MS)
-def msv_orth(m, n, seed, kind, scale, e, cap):
+def msv_orth(m, n, seed, kind, scale, e, cap, layout='C'):
     """The right factor has orthonormal rows (up to eps (s_0 / s_q)^2); SKIP when s_q < 1e-5 s_0."""
-    c, res = run_matrix(teneva.matrix_svd, m, n, seed, kind, scale, e, cap, floor=MS_FLOOR)
+    c, res = run_matrix(teneva.matrix_svd, m, n, seed, kind, scale, e, cap, layout=layout, floor=MS_FLOOR)
     if c is None:
         return res
     sq = c.s[c.q - 1]
-    if sq < 1e-5 * c.s[0]:
+    if c.s[0] == 0 or sq < 1e-5 * c.s[0]:
         return SKIP('smallest kept singular value below 1e-5 s_0')
     G = c.V @ c.V.T
     tol = 256 * EPS * (c.s[0] / sq) ** 2 * max(m, n)
@@ -489,6 +516,44 @@ def cases(tier, seed):
                         for sign in (1, -1):
                             for cid in SVD4:
                                 yield cid, dict(base, e=['thr', k, q, sign], cap=1e12)
+    # e >= ||A|| (everything may go: the floor max(1, .) of the rank), exactly-zero arrays, memory layouts of the input
+    for ni, n in enumerate(shapes):
+        for ki, kind in enumerate(kinds):
+            for mag in (MAGS if big else MAGS[(ni + ki) % 3::3]):
+                base = dict(n=n, seed=100 + ni, kind=kind, mag=mag, via='svd')
+                for e in (['rel', 1.0 + 1e-9], ['rel', 1.5], ['abs', 1e30]):
+                    for cap in (1e12, 2):
+                        for cid in SVD4:
+                            yield cid, dict(base, e=e, cap=cap)
+                for li, layout in enumerate(('F', 'V', 'R')):
+                    if big or (ni + ki + li) % 3 == 0:
+                        for e in (['rel', 0.2], ['rel', 1e-6]):
+                            for cid in SVD4:
+                                yield cid, dict(base, e=e, cap=1e12 if li != 1 else 2, layout=layout)
+        for e in (['abs', 1e-10], ['abs', 1.0]):
+            for cap in (1e12, 1, 3):
+                for cid in SVD4:
+                    yield cid, dict(n=n, seed=0, kind='zero', mag=1.0, via='svd', e=e, cap=cap)
+    # large mode sizes and many modes
+    wide = [[520, 3], [2, 300, 2], [1, 1025], [2] * 12, [3] * 7, [2, 1, 2, 1, 2, 1, 2, 1, 2]]
+    if big:
+        wide += [[3, 2048], [2] * 15, [4] * 6, [70, 3, 70]]
+    for ni, n in enumerate(wide):
+        for ki, kind in enumerate(kinds):
+            for mag in (MAGS[::2] if big else MAGS[(ni + ki) % 4::4]):
+                base = dict(n=n, seed=200 + ni, kind=kind, mag=mag, via='svd')
+                for e in (['rel', 0.3], ['rel', 1e-3], ['rel', 1.5], ['abs', 1e-10]):
+                    for cid in SVD4:
+                        yield cid, dict(base, e=e, cap=1e12)
+                for cid in SVD4:
+                    yield cid, dict(base, e=['rel', 0.05], cap=2)
+                th = _svd_thresholds(n, 200 + ni, kind, mag, 'svd')
+                for k, q in th[:: max(1, len(th) // (6 if big else 3))]:
+                    for sign in (1, -1):
+                        for cid in SVD4:
+                            yield cid, dict(base, e=['thr', k, q, sign], cap=1e12)
+        for rho in (1, 2):
+            yield 'C03.svd.exact_lowrank', dict(n=n, seed=200 + ni, rho=rho, mag=MAGS[(3 * ni + rho) % len(MAGS)], via='svd')
     for n in shapes:
         if len(n) < 2:
             continue
@@ -513,10 +578,18 @@ def cases(tier, seed):
         for rho in (1, 2):
             for mag in MAGS[::3]:
                 yield 'C03.svd.exact_lowrank', dict(n=[4] * q, seed=q, rho=rho, mag=mag, via='svd_matrix')
+        for li, layout in enumerate(('F', 'V', 'R')):
+            for e in (['rel', 0.3], ['rel', 1e-6], ['rel', 1.5]):
+                for cid in SVD4:
+                    yield cid, dict(n=[4] * q, seed=q, kind=('gauss', 'decay', 'lowrank:2')[li], mag=MAGS[(4 * li + q) % len(MAGS)],
+                                    via='svd_matrix', e=e, cap=1e12, layout=layout)
+        for cid in SVD4:
+            yield cid, dict(n=[4] * q, seed=0, kind='zero', mag=1.0, via='svd_matrix', e=['abs', 1e-10], cap=1e12)
     for q in range(1, 9 if big else 6):
         for coding in ('pos', 'rowcol', 'rand1', 'rand2'):
             for cap in (1e12, 1, 3):
                 yield 'C03.svd_matrix.roundtrip', dict(q=q, coding=coding, cap=cap)
+            yield 'C03.svd_matrix.roundtrip', dict(q=q, coding=coding, cap=1e12, layout='FVR'[q % 3])
         for r in (1, 2, 3):
             if 2 <= q <= 6:
                 for s in range(3 if big else 1):
@@ -549,6 +622,42 @@ def cases(tier, seed):
                     for cap in (CAPS if e[0] == 'rel' and e[1] in (0.3, 1e-9) else (1e12,)):
                         for cid in ('C03.matrix_svd.rank_selection', 'C03.matrix_svd.best_approx', 'C03.matrix_svd.right_orthonormal'):
                             yield cid, dict(base, e=e, cap=cap)
+    # e >= the whole matrix (floor max(1, .)), zero matrices, memory layouts, long / wide matrices
+    MSK = ('C03.matrix_skeleton.rank_selection', 'C03.matrix_skeleton.best_approx', 'C03.matrix_skeleton.give_to')
+    MSV = ('C03.matrix_svd.rank_selection', 'C03.matrix_svd.best_approx', 'C03.matrix_svd.right_orthonormal')
+    for (m, n) in mshapes + [(600, 4), (3, 700), (1, 300), (40, 40)] + ([(2, 2048), (120, 90)] if big else []):
+        for ki, kind in enumerate(mkinds):
+            if max(m, n) > 10 and kind.startswith('spec:') and kind not in ('spec:geom', 'spec:zeros'):
+                continue
+            for scale in scales:
+                j += 1
+                es = [['rel', 1.0 + 1e-9], ['rel', 2.0], ['abs', 1e30]]
+                if max(m, n) > 10:
+                    es += [['rel', 0.3], ['rel', 1e-6]] + [['thr', q, sg] for q in _mat_thresholds(m, n, j, kind, scale, MS_FLOOR)[:3] for sg in (1, -1)]
+                for e in es:
+                    for cap in (1e12, 2):
+                        for cid in MSV:
+                            yield cid, dict(m=m, n=n, seed=j, kind=kind, scale=scale, e=e, cap=cap)
+                        for gi, give_to in enumerate(('l', 'r', 'm')):
+                            if not big and (gi + j + (cap < 1e6)) % 3:
+                                continue
+                            for cid in MSK:
+                                yield cid, dict(m=m, n=n, seed=j, kind=kind, scale=scale, e=e, cap=cap, rel=bool((gi + j) % 2) or e[0] == 'rel' and e[1] == 2.0,
+                                                give_to=give_to, hermitian=False)
+                layout = 'FVR'[j % 3]
+                for e in (['rel', 0.3], ['rel', 1e-6]):
+                    for cid in MSV:
+                        yield cid, dict(m=m, n=n, seed=j, kind=kind, scale=scale, e=e, cap=1e12, layout=layout)
+                    for cid in MSK:
+                        yield cid, dict(m=m, n=n, seed=j, kind=kind, scale=scale, e=e, cap=1e12, rel=bool(j % 2), give_to='lrm'[j % 3],
+                                        hermitian=False, layout=layout)
+        for e in (['abs', 1e-10], ['abs', 1.0]):
+            for cap in (1e12, 1, 3):
+                for cid in MSV:
+                    yield cid, dict(m=m, n=n, seed=0, kind='zero', scale=1.0, e=e, cap=cap)
+                for give_to in ('l', 'r', 'm'):
+                    for cid in MSK:
+                        yield cid, dict(m=m, n=n, seed=0, kind='zero', scale=1.0, e=e, cap=cap, rel=False, give_to=give_to, hermitian=bool(m == n and cap == 3))
     # hermitian=True on symmetric matrices
     for m in (1, 2, 4, 6):
         for kind in ['sym'] + ['symspec:' + k for k in ('geom', 'ties', 'zeros')]:
